@@ -116,57 +116,82 @@ Definition buf0 : Z := 512.
     least [len(buf) + (need - cap(buf))] (and never shrinks). *)
 Definition grow_cap (cap need : Z) : Z := Z.max cap (buf0 + (need - cap)).
 
+(** The local variables of [Recv] at the top of the [for] loop. [l_buf] holds the bytes of
+    [buf[:read]]; [l_trace] is a ghost: the Read calls made so far. *)
+Record lstate := mkL {
+  l_tr : tr;
+  l_buf : list Z;
+  l_read : Z;
+  l_need : Z;
+  l_cap : Z;
+  l_trace : list (Z * Z)
+}.
+
 Section Recv.
   Variable M : Type.
   Variable unmarshal : list Z -> res M.   (* UnmarshalTTLV, verified elsewhere (C01-C03) *)
   Variable W : Z.                         (* bits of Go's int *)
   Variable max : Z.                       (* Stream.max *)
 
-  (** The [for] loop of [Stream.Recv]. [buf] holds the bytes of [buf[:read]]. *)
-  Fixpoint recv_loop (fuel : nat) (t : tr) (buf : list Z) (read need cap : Z)
-           (trace : list (Z * Z)) : rres M :=
-    match fuel with
-    | O => mkRes RFuel t cap trace
-    | S fuel' =>
-      (* if need > cap(buf) { buf = slices.Grow(buf, need-cap(buf)) } *)
-      let cap := if need >? cap then grow_cap cap need else cap in
-      (* buf[read:need] *)
-      if (read <? 0) || (read >? need) || (need >? cap) then mkRes RPanic t cap trace else
-      (* n, err := s.inner.Read(buf[read:need]) *)
-      let '(chunk, err, t') := tr_read t (need - read) in
-      let n := len chunk in
-      let trace := trace ++ [(need - read, n)] in
-      if n =? 0 then
-        (* if n == 0 { if err != nil {return err}; if read == 0 {return io.ErrUnexpectedEOF}; return io.EOF } *)
-        match err with
-        | Some e => mkRes (RErr e) t' cap trace
-        | None => mkRes (RZero (read =? 0)) t' cap trace
-        end
+  Inductive step_res :=
+  | Done (r : rres M)        (* a return statement was reached *)
+  | Continue (s : lstate).   (* next iteration *)
+
+  (** One iteration of the [for] loop of [Stream.Recv]. *)
+  Definition recv_step (s : lstate) : step_res :=
+    let t := l_tr s in
+    let read := l_read s in
+    let need := l_need s in
+    let trace := l_trace s in
+    (* if need > cap(buf) { buf = slices.Grow(buf, need-cap(buf)) } *)
+    let cap := if need >? l_cap s then grow_cap (l_cap s) need else l_cap s in
+    (* buf[read:need] *)
+    if (read <? 0) || (read >? need) || (need >? cap) then Done (mkRes RPanic t cap trace) else
+    (* n, err := s.inner.Read(buf[read:need]) *)
+    let '(chunk, err, t') := tr_read t (need - read) in
+    let n := len chunk in
+    let trace := trace ++ [(need - read, n)] in
+    if n =? 0 then
+      (* if n == 0 { if err != nil {return err}; if read == 0 {return io.ErrUnexpectedEOF}; return io.EOF } *)
+      match err with
+      | Some e => Done (mkRes (RErr e) t' cap trace)
+      | None => Done (mkRes (RZero (read =? 0)) t' cap trace)
+      end
+    else
+      let buf := take read (l_buf s) ++ chunk in
+      (* read += n *)
+      let read := read + n in
+      (* need = computeNeededBytes(buf[:read]) *)
+      let need := needed_bytes W (take read buf) in
+      (* if s.max > 0 && need > s.max { return Errorf(...) } *)
+      if (0 <? max) && (need >? max) then Done (mkRes RTooBig t' cap trace) else
+      (* if read >= need { return UnmarshalTTLV(buf[:need], msg) } *)
+      if need <=? read then
+        if (need <? 0) || (need >? cap) then Done (mkRes RPanic t' cap trace)
+        else Done (mkRes (RMsg (unmarshal (take need buf))) t' cap trace)
       else
-        let buf := take read buf ++ chunk in
-        (* read += n *)
-        let read := read + n in
-        (* need = computeNeededBytes(buf[:read]) *)
-        let need := needed_bytes W (take read buf) in
-        (* if s.max > 0 && need > s.max { return Errorf(...) } *)
-        if (0 <? max) && (need >? max) then mkRes RTooBig t' cap trace else
-        (* if read >= need { return UnmarshalTTLV(buf[:need], msg) } *)
-        if need <=? read then
-          if (need <? 0) || (need >? cap) then mkRes RPanic t' cap trace
-          else mkRes (RMsg (unmarshal (take need buf))) t' cap trace
-        else
-        (* if err != nil { return err } *)
-        match err with
-        | Some e => mkRes (RErr e) t' cap trace
-        | None => recv_loop fuel' t' buf read need cap trace
-        end
+      (* if err != nil { return err } *)
+      match err with
+      | Some e => Done (mkRes (RErr e) t' cap trace)
+      | None => Continue (mkL t' buf read need cap trace)
+      end.
+
+  Fixpoint recv_loop (fuel : nat) (s : lstate) : rres M :=
+    match fuel with
+    | O => mkRes RFuel (l_tr s) (l_cap s) (l_trace s)
+    | S fuel' =>
+      match recv_step s with
+      | Done r => r
+      | Continue s' => recv_loop fuel' s'
+      end
     end.
 
   (** [Stream.Recv]: read := 0; buf := make([]byte, 512); need := 8; for {...}.
       Every iteration that does not return uses up one scheduled answer or, once the
-      schedule is exhausted, completes the header or the message: the fuel suffices. *)
-  Definition recv (t : tr) : rres M :=
-    recv_loop (length (t_sched t) + 3) t [] 0 8 buf0 [].
+      schedule is exhausted, completes the header or drains the stream: the fuel
+      suffices (recv_terminates). *)
+  Definition recv_init (t : tr) : lstate := mkL t [] 0 8 buf0 [].
+  Definition recv (t : tr) : rres M := recv_loop (length (t_sched t) + 3) (recv_init t).
 
   (** [k] successive [Recv] calls on the same stream. *)
   Fixpoint recv_n (k : nat) (t : tr) : list (rres M) :=
